@@ -327,3 +327,46 @@ func Harness_C09_fallbacks() {
 	zzsym.Assert(ok, "a response with a body carries a Content-Type")
 	zzsym.Reach("fallback.checked")
 }
+
+func Setup_C09_sequence() { Setup_C09_http() }
+
+// Harness_C09_sequence: two requests through one server and one transport
+// value: whatever the first request named, the second executes exactly the
+// operation it names itself (or is refused), for POST and GET.
+func Harness_C09_sequence() {
+	es := &hES{}
+	srv := hServer(es, nil)
+	mk := func(d hDoc, get bool) *http.Request {
+		r := &http.Request{Header: http.Header{}, URL: &url.URL{Path: "/query"}}
+		if get {
+			r.Method = "GET"
+			v := url.Values{}
+			v.Set("query", d.query)
+			if d.op != "" {
+				v.Set("operationName", d.op)
+			}
+			r.URL.RawQuery = v.Encode()
+			r.Body = http.NoBody
+		} else {
+			r.Method = "POST"
+			r.Header.Set("Content-Type", "application/json")
+			r.Body = io.NopCloser(strings.NewReader(hJSONBody(d)))
+		}
+		return r
+	}
+	first := hDocs[zzsym.Choice("first", 7)]
+	second := hDocs[zzsym.Choice("second", 7)]
+	get1, get2 := zzsym.Choice("m1", 2) == 0, zzsym.Choice("m2", 2) == 0
+	srv.ServeHTTP(newHWriter(), mk(first, get1))
+	es.execs = nil
+	w := newHWriter()
+	srv.ServeHTTP(w, mk(second, get2))
+	allowed := second.kind != "" && (!get2 || second.kind == "query")
+	if allowed {
+		zzsym.Assert(len(es.execs) == 1 && es.execs[0] == second.kind+":"+second.name && w.status == 200, "the second request executes exactly the operation it names")
+		zzsym.Reach("seq.executed")
+	} else {
+		zzsym.Assert(len(es.execs) == 0 && w.status >= 400, "the second request is refused on its own merits")
+		zzsym.Reach("seq.refused")
+	}
+}
